@@ -1,0 +1,36 @@
+//! Verification-only, read-only accessors (feature `verif-hooks`).
+use super::*;
+use ::core::hash::Hasher;
+
+impl InflateState {
+    /// Feed the complete wrapper state (decoder, window, cursors, flags) to `h`.
+    pub fn verif_hash<H: Hasher>(&self, h: &mut H) {
+        let InflateState {
+            decomp,
+            dict,
+            dict_ofs,
+            dict_avail,
+            first_call,
+            has_flushed,
+            data_format,
+            last_status,
+        } = self;
+        decomp.verif_hash(h);
+        h.write(dict);
+        h.write_usize(*dict_ofs);
+        h.write_usize(*dict_avail);
+        h.write_u8(*first_call as u8);
+        h.write_u8(*has_flushed as u8);
+        h.write_u8(match data_format {
+            DataFormat::Zlib => 0,
+            DataFormat::ZLibIgnoreChecksum => 1,
+            DataFormat::Raw => 2,
+        });
+        h.write_i8(*last_status as i8);
+    }
+
+    /// Read-only view of the decoder (the public accessor needs `&mut`).
+    pub fn verif_decomp(&self) -> &DecompressorOxide {
+        &self.decomp
+    }
+}
